@@ -42,7 +42,7 @@ def generate(rep, tag, *, MaxNodes, MaxOps, MaxLeaves, Ops='AllOps', LeafSet='Al
             f.write('---- MODULE MCExprBuilderX ----\nEXTENDS MCExprBuilder\n' + extra_defs + '\n====\n')
         extra = [p]
     res = tlc.run('MCExprBuilderX' if extra_defs else 'MCExprBuilder', cfg_text=cfg, tag=tag, workers=1 if simulate else None,
-                  deadlock=False, timeout=timeout, extra_modules=extra, coverage=exhaustive, **kw)
+                  deadlock=False, timeout=timeout, extra_modules=extra, coverage=False, **kw)
     if res.violated:
         raise tlc.TLCError('ExprBuilder internal invariant {} violated'.format(res.violated))
     rep.add_tlc(res, exhaustive=exhaustive)
